@@ -216,9 +216,24 @@ pub fn exec_model_to_real(case: &WireCase, tally: &mut Tally) -> Result<(), Fail
             return Ok(());
         }
     };
+    // The decoder must not depend on what it decoded before: on the same thread, first hand it
+    // damaged variants of this message (cut inside the operation stream, one byte changed in the
+    // second half), whatever it makes of them, then the intact bytes.
+    let after_damaged = bytes.len() > 16 && fnv64(&bytes) % 3 == 0;
+    if after_damaged {
+        let h = fnv64(&bytes) as usize;
+        for cut in [1usize, 2, 1 + (h >> 8) % (bytes.len() / 2)] {
+            let _ = guard(|| real_decode(&bytes[..bytes.len() - cut]).map(|_| ()));
+        }
+        let mut flipped = bytes.clone();
+        let pos = bytes.len() / 2 + (h >> 20) % (bytes.len() / 2);
+        flipped[pos] ^= 0x55;
+        let _ = guard(|| real_decode(&flipped).map(|_| ()));
+        tally.label("decoded_after_damaged_variants");
+    }
     let (msg, rest): (ChitchatMessage, usize) = match guard(|| real_decode(&bytes)) {
         Ok(Ok(r)) => r,
-        Ok(Err(e)) => return vio("C08/decode-rejected", format!("real decoder rejects an honest {} byte message: {e}; model {}", bytes.len(), short(&expected))),
+        Ok(Err(e)) => return vio("C08/decode-rejected", format!("real decoder rejects an honest {} byte message{}: {e}; model {}", bytes.len(), if after_damaged { " (decoded right after damaged variants of it on the same thread)" } else { "" }, short(&expected))),
         Err(p) => return vio(&format!("C08/{}", p.signature()), format!("real decoder panicked: {}", p.describe())),
     };
     if rest != 0 {
@@ -426,6 +441,7 @@ fn blocking_strategy() -> impl Strategy<Value = Blocking> {
         1 => (1usize..70_000).prop_map(Blocking::Mixed),
         1 => (1usize..400).prop_map(Blocking::Mixed),
         1 => (1usize..70_000).prop_map(Blocking::CompressedStream),
+        1 => prop_oneof![Just(1usize), Just(2usize), 1usize..64, 1usize..70_000].prop_map(Blocking::RawFlushEmpty),
     ]
 }
 
